@@ -21,7 +21,13 @@ def run (j : Json) : Except String Json := do
   let specOk := tbl.all (fun (p : Pos × Nat) =>
     !(Flatland.C13.Spec.addressable root p.1) ||
       starts.all (fun s => Flatland.C13.Spec.isInverseAt root s p.1))
+  -- `find_fq_iff` re-checked on the case: on spellable positions the law holds at (start, pos) IF AND
+  -- ONLY IF the position is addressable
+  let iffOk := tbl.all (fun (p : Pos × Nat) =>
+    !(Flatland.C13.Spec.spellable root p.1) ||
+      starts.all (fun s =>
+        Flatland.C13.Spec.isInverseAt root s p.1 == Flatland.C13.Spec.addressable root p.1))
   return obj [("fq", Json.arr fq.toArray), ("found", Json.arr found.toArray),
-    ("spec_agrees", Json.bool specOk)]
+    ("spec_agrees", Json.bool (specOk && iffOk))]
 
 end Flatland.Run.C13
